@@ -44,7 +44,7 @@ def _work(cfg):
 
     def _alarm(signum, frame):
         raise _Budget()
-    budget = int(os.environ.get('VERIF_CONFIG_BUDGET_S', '900'))
+    budget = int(os.environ.get('VERIF_CONFIG_BUDGET_S', '0') or 0) or (3600 if os.environ.get('VERIF_TIER_EFFECTIVE') == 'thorough' else 1200)
     try:
         signal.signal(signal.SIGALRM, _alarm)
         signal.alarm(budget)
@@ -134,6 +134,7 @@ def main(argv=None):
     ap.add_argument('--no-evidence', action='store_true')
     args = ap.parse_args(argv)
     pid = args.pid
+    os.environ['VERIF_TIER_EFFECTIVE'] = args.tier
     seed = int(os.environ.get('VERIF_SEED', '0') or 0)
     t_start = time.time()
 
